@@ -21,6 +21,13 @@ import (
 	"verif/harness/internal/vutil"
 )
 
+// hardSteps: no run can take this many steps while gas decreases by at least 1 per step (gas limits <= 10^7;
+// the runs that reach the depth limit take some ten thousand); beyond it the EVM is cancelled and the run judged.
+const hardSteps = 30000000
+
+// maxEvents bounds the trace of one driver process.
+const maxEvents = 4000000
+
 var (
 	tr     *vutil.Trace
 	rec    *eu.Recorder
@@ -87,7 +94,10 @@ func execute(j job) {
 	cls := eu.ErrClass(err)
 	tr.Emit(map[string]interface{}{"event": "End", "run": runID, "depth": 0, "err": cls, "failed": err != nil,
 		"gasLeft": eu.GasDigits(left), "retLen": len(ret), "panic": panik != "", "panicText": panik, "panicOp": panicOp,
-		"truncated": rec.Truncated, "steps": rec.Steps, "frames": rec.FramesSeen, "open": rec.Depth()})
+		"truncated": rec.Truncated, "steps": rec.Steps, "frames": rec.FramesSeen, "open": rec.Depth(), "cancelled": rec.Cancelled})
+	if tr.N > maxEvents {
+		vutil.Fatalf("trace budget of %d events exceeded", maxEvents)
+	}
 	stats["runs"]++
 	stats["steps"] += rec.Steps
 	stats["frames"] += rec.FramesSeen
@@ -466,6 +476,12 @@ func classValue(c string) *big.Int {
 		return p(255)
 	case "p255p1":
 		return new(big.Int).Add(p(255), one)
+	case "p64p32":
+		return new(big.Int).Add(p(64), big.NewInt(32))
+	case "p64p5":
+		return new(big.Int).Add(p(64), big.NewInt(5))
+	case "p255p32":
+		return new(big.Int).Add(p(255), big.NewInt(32))
 	case "p255x":
 		return new(big.Int).Add(p(255), big.NewInt(0x100000))
 	case "max":
@@ -650,7 +666,7 @@ func main() {
 		return
 	}
 	tr = vutil.NewTrace(*out)
-	rec = eu.NewRecorder(tr, eu.Options{Gas: true, Frames: true, MaxSteps: *maxSteps, MaxFrames: 2200, MaxFaults: 1200})
+	rec = eu.NewRecorder(tr, eu.Options{Gas: true, Frames: true, MaxSteps: *maxSteps, MaxFrames: 2200, MaxFaults: 1200, HardSteps: hardSteps})
 	rec.Install()
 	r := vutil.Rng(*salt)
 	if *scriptPath != "" {
